@@ -62,6 +62,15 @@ CHECKS["C10"] = dict(
     engine="tlc+replay",
 )
 
+CHECKS["C11"] = dict(
+    category="model_checking",
+    text="Graph.tla defines ExpectedReports(G): for every reference at a covered site the name check() must report (none if it resolves, honouring the neutral names and the THIS. convention for TYPEDEF_CHARACTERISTICs that are only used as structure components). TLC enumerates for every site x target kind the consistent module and each single corruption of the property (unused name at each list position, neutral, homonym in another namespace), all THIS constellations, and a totality family (8 CHARACTERISTIC types x 0..7 AXIS_DESCR x 5 attributes on both owner kinds, self references, empty lists), and checks the oracle on them; every case and seeded random modules are run through the real check(): the reported missing names must equal the oracle's (sound and complete), no panic, model unchanged.",
+    design_ref="DESIGN.md §4.4, §6 C11",
+    note=_MERGE_NOTE + " Completeness is over the sites covered by check() at the pinned commit.",
+    technique="TLA+ oracle (Graph.tla ExpectedReports/CheckOK) over TLC-generated per-site corruptions, executed on the real check() and validated by TLC (Trace_Graph)",
+    engine="tlc+replay",
+)
+
 PENDING = "check not built yet in this round; planned per DESIGN.md §6 (no claim made until the TLA+ module and its binding exist)"
 NOT_APPLICABLE = {}
 
